@@ -41,7 +41,7 @@ def grab(name, f):
     try:
         out[name] = f()
     except Exception as e:
-        out["errors"].append("%%s: %%s: %%s" %% (name, type(e).__name__, e))
+        out["errors"].append("%s: %s: %s" % (name, type(e).__name__, e))
         out[name] = None
 import productmd.common as C
 import productmd.composeinfo as CI
@@ -143,8 +143,103 @@ def inventory():
     res = {}
     for name, o in objs.items():
         ms = sorted([i for i in dir(o) if i.startswith("_validate") and callable(getattr(o, i))])
-        res[name] = [[m, getattr(type(o), m).__qualname__] for m in ms]
+        res[name] = [[m, getattr(type(o), m).__module__.split(".")[-1] + "." + getattr(type(o), m).__qualname__,
+                      translate_method(getattr(type(o), m))] for m in ms]
     return res
+
+import ast, inspect, textwrap, hashlib
+TAGS = {str: "TStr", int: "TInt", bool: "TBool", float: "TFloat", type(None): "TNone", dict: "TDict", list: "TList"}
+class Untranslatable(Exception):
+    pass
+def translate_method(fn):
+    """the method body in the library's assertion vocabulary, or {'custom': <ast hash>}"""
+    try:
+        src = textwrap.dedent(inspect.getsource(fn))
+        tree = ast.parse(src).body[0]
+        glb = sys.modules[fn.__module__].__dict__
+        h = hashlib.sha1(ast.dump(tree).encode()).hexdigest()[:16]
+    except Exception as e:
+        return {"custom": "nosource:%s" % e}
+    def ev(node):
+        try:
+            return eval(compile(ast.Expression(node), "<validator>", "eval"), glb)
+        except Exception as e:
+            raise Untranslatable("cannot evaluate %s: %s" % (ast.dump(node)[:80], e))
+    def field_of(node):
+        # self.<name>
+        if isinstance(node, ast.Attribute) and isinstance(node.value, ast.Name) and node.value.id == "self":
+            return node.attr
+        raise Untranslatable("not self.<field>")
+    def jsonable(v):
+        try:
+            json.dumps(v)
+        except Exception:
+            raise Untranslatable("value table not JSON-able")
+        return v
+    def cond(node):
+        if isinstance(node, ast.Attribute):
+            return {"k": "truthy", "f": field_of(node)}
+        if isinstance(node, ast.Compare) and len(node.ops) == 1 and isinstance(node.ops[0], ast.IsNot) \
+                and isinstance(node.comparators[0], ast.Constant) and node.comparators[0].value is None:
+            return {"k": "notnone", "f": field_of(node.left)}
+        if isinstance(node, ast.UnaryOp) and isinstance(node.op, ast.Not):
+            return {"k": "not", "c": cond(node.operand)}
+        if isinstance(node, ast.BoolOp):
+            parts = [cond(v) for v in node.values]
+            out = parts[-1]
+            for p in reversed(parts[:-1]):
+                out = {"k": "and" if isinstance(node.op, ast.And) else "or", "a": p, "b": out}
+            return out
+        if isinstance(node, ast.Call) and isinstance(node.func, ast.Attribute) and isinstance(node.func.value, ast.Name) \
+                and node.func.value.id == "re" and node.func.attr == "match" and len(node.args) == 2:
+            pat = ev(node.args[0])
+            if not isinstance(pat, str):
+                raise Untranslatable("pattern")
+            return {"k": "match", "pat": pat, "f": field_of(node.args[1])}
+        raise Untranslatable("condition %s" % ast.dump(node)[:80])
+    def stmt(node):
+        if isinstance(node, ast.Expr) and isinstance(node.value, ast.Constant) and isinstance(node.value.value, str):
+            return None  # docstring
+        if isinstance(node, ast.Pass):
+            return {"k": "pass"}
+        if isinstance(node, ast.Raise) and isinstance(node.exc, ast.Call) and isinstance(node.exc.func, ast.Name) \
+                and node.exc.func.id in ("ValueError", "TypeError"):
+            return {"k": "raise", "e": node.exc.func.id}
+        if isinstance(node, ast.If) and not node.orelse:
+            return {"k": "if", "c": cond(node.test), "body": [x for x in (stmt(b) for b in node.body) if x is not None]}
+        if isinstance(node, ast.Expr) and isinstance(node.value, ast.Call):
+            c = node.value
+            if isinstance(c.func, ast.Attribute) and isinstance(c.func.value, ast.Name) and c.func.value.id == "self" and not c.keywords:
+                name = c.func.attr
+                if name == "_assert_type" and len(c.args) == 2:
+                    tys = ev(c.args[1])
+                    tags = []
+                    for t in tys:
+                        if t not in TAGS:
+                            raise Untranslatable("type %r" % (t,))
+                        tags.append(TAGS[t])
+                    return {"k": "type", "f": ev(c.args[0]), "tags": tags}
+                if name == "_assert_value" and len(c.args) == 2:
+                    return {"k": "value", "f": ev(c.args[0]), "tbl": jsonable(list(ev(c.args[1])))}
+                if name == "_assert_not_blank" and len(c.args) == 1:
+                    return {"k": "notblank", "f": ev(c.args[0])}
+                if name == "_assert_matches_re" and len(c.args) == 2:
+                    pats = [p.pattern if hasattr(p, "pattern") else p for p in ev(c.args[1])]
+                    if not all(isinstance(p, str) for p in pats):
+                        raise Untranslatable("patterns")
+                    return {"k": "re", "f": ev(c.args[0]), "pats": pats}
+        raise Untranslatable("statement %s" % ast.dump(node)[:100])
+    try:
+        if tree.args.args and len(tree.args.args) != 1 or tree.args.kwonlyargs or tree.args.vararg or tree.args.kwarg:
+            raise Untranslatable("extra parameters")
+        body = [x for x in (stmt(b) for b in tree.body) if x is not None]
+        for b in body:
+            if isinstance(b.get("f"), str) is False and "f" in b:
+                raise Untranslatable("field name")
+        return {"body": body, "hash": h}
+    except Untranslatable as e:
+        return {"custom": h, "why": str(e)}
+
 grab("VALIDATORS", inventory)
 # drive the parsers and every shipped fixture once so that run-time patterns are seen
 def drive():
@@ -177,7 +272,7 @@ json.dump(out, sys.stdout)
 
 def reflect():
     env = dict(os.environ, PYTHONPATH=REPO, PYTHONHASHSEED="0", PYTHONDONTWRITEBYTECODE="1")
-    p = subprocess.run([PY, "-c", REFLECT % {"repo": REPO}], capture_output=True, text=True, env=env, timeout=60)
+    p = subprocess.run([PY, "-c", REFLECT.replace("%(repo)r", repr(REPO))], capture_output=True, text=True, env=env, timeout=60)
     if p.returncode != 0:
         return {"errors": ["reflection failed: " + p.stderr[-2000:]]}
     return json.loads(p.stdout)
@@ -551,18 +646,89 @@ def emit_regexes(R, report):
     return "\n".join(L) + "\n"
 
 
+def pyval_lit(v):
+    if v is None:
+        return "PNone"
+    if v is True:
+        return "(PBool true)"
+    if v is False:
+        return "(PBool false)"
+    if isinstance(v, int):
+        return "(PInt (%d)%%Z)" % v
+    if isinstance(v, str):
+        return "(PStr %s)" % cstr(v)
+    if isinstance(v, list):
+        return "(PList %s)" % clist(pyval_lit(x) for x in v)
+    if isinstance(v, dict):
+        return "(PDict %s)" % clist("(%s, %s)" % (cstr(k), pyval_lit(x)) for k, x in v.items())
+    raise ValueError("no pyval literal for %r" % (v,))
+
+
 def emit_validators(R, report):
     inv = R.get("VALIDATORS") or {}
     L = ["(* GENERATED by harness/translate.py from %s - do not edit *)" % REPO,
-         "From PM Require Export Base.Str.", "",
-         "(* class -> sorted names of the _validate* methods validate() runs, with the defining class *)",
-         "Definition VALIDATORS : list (str * list (str * str)) := ["]
+         "From PM Require Export Base.Obj.", ""]
+
+    def cond(c):
+        k = c["k"]
+        if k == "truthy":
+            return "CTruthy %s" % cstr(c["f"])
+        if k == "notnone":
+            return "CNotNone %s" % cstr(c["f"])
+        if k == "match":
+            term, notes, _ = regex_to_coq(c["pat"])
+            return "CMatch (%s) %s" % (term, cstr(c["f"]))
+        if k == "not":
+            return "CNot (%s)" % cond(c["c"])
+        return "%s (%s) (%s)" % ("CAnd" if k == "and" else "COr", cond(c["a"]), cond(c["b"]))
+
+    def vexpr(b):
+        k = b["k"]
+        if k == "type":
+            return "AssertType %s %s" % (cstr(b["f"]), clist(b["tags"]))
+        if k == "value":
+            return "AssertValue %s %s" % (cstr(b["f"]), clist(pyval_lit(x) for x in b["tbl"]))
+        if k == "notblank":
+            return "AssertNotBlank %s" % cstr(b["f"])
+        if k == "re":
+            terms = []
+            for p in b["pats"]:
+                term, notes, _ = regex_to_coq(p)
+                terms.append("(%s)" % term)
+            return "AssertMatchesRe %s %s" % (cstr(b["f"]), clist(terms))
+        if k == "if":
+            return "VIf (%s) %s" % (cond(b["c"]), clist(vexpr(x) for x in b["body"]))
+        if k == "raise":
+            return "VRaise %s" % b["e"]
+        return "VPass"
+
+    customs = []
     rows = []
+    summary = {}
     for cls in sorted(inv):
-        rows.append("  (%s, %s)" % (cstr_c(cls), clist("(%s, %s)" % (cstr(m), cstr(q)) for m, q in inv[cls])))
+        ms = []
+        summary[cls] = []
+        for m, qual, tr in inv[cls]:
+            if "body" in tr:
+                ms.append("(%s, VBody %s)" % (cstr_c(m), clist(vexpr(x) for x in tr["body"])))
+                summary[cls].append([m, qual, "translated"])
+            else:
+                ms.append("(%s, VCustom %s)" % (cstr_c(m), cstr_c(qual)))
+                customs.append((qual, tr.get("custom", "?")))
+                summary[cls].append([m, qual, "custom:" + tr.get("custom", "?") + " (" + tr.get("why", "") + ")"])
+        rows.append("  (%s,\n   [%s])" % (cstr_c(cls), ";\n    ".join(ms)))
+    L.append("(* class -> the _validate* methods validate() runs, in sorted name order *)")
+    L.append("Definition VALIDATORS : list (str * list (str * vmethod)) := [")
     L.append(";\n".join(rows))
+    L.append("].\n")
+    seen = {}
+    for q, h in customs:
+        seen[q] = h
+    L.append("(* hand-modelled validators: qualified name -> hash of the method's AST *)")
+    L.append("Definition CUSTOM_VALIDATORS : list (str * str) := [")
+    L.append(";\n".join("  (%s, %s)" % (cstr_c(q), cstr(h)) for q, h in sorted(seen.items())))
     L.append("].")
-    report["validators"] = inv
+    report["validators"] = summary
     return "\n".join(L) + "\n"
 
 
